@@ -19,6 +19,13 @@ def run(tier, seed, pid=PID):
             out.violate(sig, what, rp)
     for d in drift:
         out.drift(d)
+    ff_states, ff_replayed = 0, 0
+    if pid == "C02":
+        v3, d3, ff_states, ff_replayed = E.run_finite_flow(tier, f"{pid.lower()}_{tier}_ff")
+        for owner, sig, what, rp in v3:
+            out.violate(sig, what, rp)
+        for d in d3:
+            out.drift(d)
     tr = E.run_traces(tier, f"{pid.lower()}_{tier}_trace")
     for owner, sig, what, rp in tr["failures"]:
         if owner == pid:
@@ -26,8 +33,9 @@ def run(tier, seed, pid=PID):
     bad = {id(t) for t in []}
     t0 = tr["traces"][0]
     out.coverage = {
-        "states": res.distinct + tr["states"], "transitions": res.generated + tr["states"],
-        "traces_validated_against_impl": len(tr["traces"]),
+        "states": res.distinct + tr["states"] + ff_states, "transitions": res.generated + tr["states"] + ff_states,
+        "traces_validated_against_impl": len(tr["traces"]) + ff_replayed,
+        "finite_field_states_checked_and_replayed": ff_replayed,
         "composition_schemes_enumerated_and_instantiated": n,
         "integrator_system_scenarios": len(tr["traces"]) // 2,
         "step_outcomes": sorted({t["outcome"].split(":")[0] for t in tr["traces"]}),
